@@ -78,7 +78,12 @@ def cone_rule(repo, chk, R):
     cg = CallGraph(repo)
     depth = CONE_DEPTH.get(chk.prop, 2)
     done = set(getattr(chk, 'templated', ()))
-    cone = cg.cone(sorted(chk.functions), depth)
+    roots = sorted(chk.functions)
+    cone = cg.cone(roots, depth)
+    for q in roots:
+        # a function the property's own rules looked at through a specific rule only is compared as well
+        if q in repo.funcs:
+            cone.setdefault(q, (0, q, 'analysed by the property\'s own rules'))
     idx = ref_index()
     n = without = 0
     missing = []
@@ -91,8 +96,11 @@ def cone_rule(repo, chk, R):
             missing.append(q)
             continue
         refname, name, text = idx[q]
-        what = 'dependency (%s of %s, %d step%s from the analysed functions) does what its reviewed form does (%s)' % (
-            how, parent.split(':')[-1], dist, '' if dist == 1 else 's', refname)
+        if dist == 0:
+            what = 'function the specific rules rest on does what its reviewed form does (%s)' % refname
+        else:
+            what = 'dependency (%s of %s, %d step%s from the analysed functions) does what its reviewed form does (%s)' % (
+                how, parent.split(':')[-1], dist, '' if dist == 1 else 's', refname)
         R.run('DEPS', template_check, repo, chk, 'DEPS', q, name, what, text)
         n += 1
     chk.cone = {'depth': depth, 'functions': len(cone), 'compared': n, 'already_compared_by_own_rules': len(set(cone) & done), 'without_reference': without, 'functions_without_reference': missing}
